@@ -1,8 +1,9 @@
 claim("C01",
       "TLC model-checks the two-register AttitudeMachine (quaternion side / matrix side, invariants Faithful, ProperRot, "
       "RotateLaw, PointLaws) exhaustively over the closed 2O machine with every conversion/product route and over all "
-      "(register, operand) pairs of the exact grid; the exact case table and -simulate behaviours are replayed through all 9 "
-      "matrix, 7 product, 5 conjugate and 3 rotation routes of the real library, and traces recorded from the real objects "
+      "(register, operand) pairs of the exact grid; the exact case table and -simulate behaviours are replayed through all 15 "
+      "matrix, 9 product, 8 conjugate and 5 rotation routes of the real library (batch forms, scalar-last and derived objects, objects "
+      "overwritten in place, integer-valued operands handed over as integers), and traces recorded from the real objects "
       "are validated by TraceAttitude. Bounded by the grid (exhaustive inside it), plus float-only relational classes.",
       "TLA+ AttitudeMachine + TLC (exhaustive/simulate) + forward replay and trace validation", "DESIGN.md section 5, C01")
 claim("C09",
@@ -19,7 +20,8 @@ claim("C02",
       "case, Bar-Itzhack as the eigenvalue-1 eigenvector of K2/K3) and bound into AttitudeMachine as ToQuat; TLC proves "
       "MethodSound on every register of L(2), 2O, exact half-turns and thin families and emits the allowed signed outputs; "
       "the harness feeds the exact matrices (plus bigint-mirror thin families down to 1e-15 rad and eps-perturbed relational "
-      "cases) to 9 method variants x 6 dispatchers and requires a real unit quaternion equal to an allowed output; ToQuat "
+      "cases) to 9 method variants x 12 dispatchers (function, DCM.to_quaternion, Quaternion(dcm=), QuaternionArray(DCM=) at three "
+      "positions, the array dispatcher as a method and with versors=False, column-major / transposed-view inputs) and requires a real unit quaternion equal to an allowed output; ToQuat "
       "behaviours are replayed and their recorded traces validated by TraceAttitude.",
       "TLA+ Dcm2Quat/AttitudeMachine + TLC + exact replay, bigint mirror, trace validation", "DESIGN.md section 5, C02")
 claim("C10",
@@ -47,7 +49,8 @@ claim("C11",
       "1e-100..1e100, NaN/inf/zero/wrong-shape/wrong-type fills, reflections, scaled, sheared, non-orthogonal, NaN matrices, "
       "stacks) and classifies the outcome; the observed (call, outcome) events are validated by TraceConstructors with the open "
       "findings as as-built deviations; sums/differences, random attitudes, rotate_by and average are checked to be real "
-      "unit quaternions.",
+      "unit quaternions. Inputs are also handed over in other memory layouts and element types (Fortran order, transposed and strided views, "
+      "integer dtype, read-only, lists of lists, magnitudes within 3 ppm of unit norm).",
       "TLA+ Constructors decision table + TLC + replay and trace validation", "DESIGN.md section 5, C11")
 claim("C04",
       "SensorWorld.tla holds the per-route convention table (gravity reference, magnetic reference form, direction type A/B), the "
@@ -56,8 +59,11 @@ claim("C04",
       "measurement vectors; 40 estimator routes (constructor and estimate(), all modes/frames/representations) are fed these "
       "measurements at several positive scalings and the rotation matrix of the output must equal the exact matrix of the ghost "
       "attitude (all attitudes for the singularity-free class, general position for the closed-form class); the observed calls "
-      "are abstracted and validated by TraceSensorWorld.",
-      "TLA+ SensorWorld + TLC + exact replay and trace validation", "DESIGN.md section 5, C04")
+      "are abstracted and validated by TraceSensorWorld. Oleq.tla states OLEQ's theory in exact integers (W(b,r) = LeftMat(r)^T RightMat(b) is the "
+      "code's hand-expanded matrix, symmetric involution, the attitude its fixed and dominant direction) and names the code's 21-step power "
+      "iteration from a random start as an as-built deviation; the code's output must coincide with that iteration on the exact matrices "
+      "emitted by TLC (same seed, four routes), so changes to OLEQ are detected although its ideal property is a recorded finding.",
+      "TLA+ SensorWorld + Oleq (as-built model) + TLC + exact replay and trace validation", "DESIGN.md section 5, C04")
 claim("C03",
       "FilterLifecycle.tla carries the configuration catalogue transcribed from the constructors (19 classes x architecture x "
       "frame x representation x mode x gain class x rate class = 231 configurations, enumerated by TLC) and the run machine with "
@@ -67,12 +73,13 @@ claim("C03",
       "finite angles); observed runs are validated by TraceLifecycle.",
       "TLA+ FilterLifecycle catalogue + TLC + replay over enumerated configurations, trace validation", "DESIGN.md section 5, C03")
 claim("C07",
-      "Vectorised.tla fixes the catalogue of 47 twin pairs (QuaternionArray vs Quaternion conversions, 9 matrix->quaternion "
+      "Vectorised.tla fixes the catalogue of 69 twin pairs (QuaternionArray vs Quaternion conversions, 9 matrix->quaternion "
       "variants, N-by-3-by-3 vs 3-by-3 functions, batch vs single metrics, N-sample constructors vs estimate() of every single-frame "
       "estimator and option) and the arrangements of six row classes (generic, half-turn, near-half-turn, near-identity, identity) "
       "over N in {1,2,5}, with the invariant RowLocal; TLC enumerates all 18k (pair, arrangement) cases; the harness concretises "
       "them with exact rows and requires row i of the array path to equal the scalar path within 1e-12 (NaN pattern included, "
-      "sign-free for eigen-solvers), plus one-sample constructors vs one-row batches with options honoured.",
+      "sign-free for eigen-solvers), plus one-sample constructors vs one-row batches with options honoured (weights, order='S', frames, "
+      "representations), in three data forms (float, integer dtype, non-normalised).",
       "TLA+ Vectorised catalogue + TLC enumeration + abstract-state determinism replay", "DESIGN.md section 5, C07")
 claim("C06",
       "FilterLifecycle.tla with two instances (Create from an initial sample / Update / Batch / Drop) defines the abstract state "
